@@ -17,6 +17,13 @@ fn opts(rng: &mut StdRng) -> BuildOpts {
 /// abort, and now and then a clean retry with search. `polls` = number of polls of the fault-free
 /// build (None in the measuring phase).
 pub fn cancel_history(seed: u64, polls: Option<u64>, thorough: bool) -> History {
+    cancel_history_at(seed, polls, thorough, &[])
+}
+
+/// `boundaries`: poll counts at which the fault-free build announced a new phase; every poll within 3 of
+/// a boundary is enumerated even in the quick tier (the first poll of a phase is where a misplaced or
+/// dropped cancellation check shows)
+pub fn cancel_history_at(seed: u64, polls: Option<u64>, thorough: bool, boundaries: &[u64]) -> History {
     let mut rng = StdRng::seed_from_u64(seed);
     let p = profile("forest");
     let metric = *ALL_METRICS.choose(&mut rng).unwrap();
@@ -70,6 +77,9 @@ pub fn cancel_history(seed: u64, polls: Option<u64>, thorough: bool) -> History 
                 v.extend((30..total.saturating_sub(9)).step_by(stride as usize));
                 v
             };
+            for b in boundaries {
+                points.extend(b.saturating_sub(3)..=(b + 3).min(total + 1));
+            }
             points.sort();
             points.dedup();
             for (k, n) in points.iter().enumerate() {
